@@ -20,10 +20,10 @@ from lxml import etree
 from pyvc.oblig import obligation
 
 from spyne import Application, ServiceBase, rpc, Fault
-from spyne.model.complex import ComplexModel, Array
+from spyne.model.complex import ComplexModel, Array, XmlAttribute
 from spyne.model.enum import Enum
-from spyne.model.primitive import Integer, Unicode, Decimal, DateTime, Boolean
-from spyne.protocol.soap import Soap11
+from spyne.model.primitive import Integer, Unicode, Decimal, DateTime, Boolean, AnyXml
+from spyne.protocol.soap import Soap11, Soap12
 from spyne.interface.wsdl import Wsdl11
 
 WSDL = 'http://schemas.xmlsoap.org/wsdl/'
@@ -36,7 +36,7 @@ EMITTER_MODULES = ('spyne.interface.wsdl.wsdl11', 'spyne.interface.xml_schema._b
                    'spyne.interface.xml_schema.defn', 'spyne.interface._base')
 
 
-def make_app(kind, services_only=False):
+def make_app(kind, services_only=False, soap='soap11'):
     """Generated applications (bounded program space)."""
     ns = ['urn:a', 'urn:b', 'urn:c', 'urn:d', 'urn:e']
 
@@ -45,10 +45,31 @@ def make_app(kind, services_only=False):
         x = Integer
         colour = Enum('red', 'green', 'blue', type_name='Colour')
 
+    class E(ComplexModel):
+        """A class that uses the schema emitter's other features: documentation, several choice groups (members of one
+        group are not adjacent), an attribute, a wildcard, a default."""
+        __namespace__ = ns[2]
+        first = Unicode(xml_choice_group='zulu')
+        second = Integer(xml_choice_group='alpha')
+        third = Unicode(xml_choice_group='mike')
+        fourth = Integer(xml_choice_group='zulu')
+        fifth = Unicode(xml_choice_group='bravo', doc='a documented member')
+        sixth = Integer(xml_choice_group='alpha')
+        att = XmlAttribute(Integer)
+        anyx = AnyXml
+        dflt = Integer(default=5)
+        # restricted simple types of every facet family the emitter knows
+        code3 = Unicode(min_len=3, max_len=3)
+        short = Unicode(max_len=5, pattern='[a-z]+')
+        ranged = Integer(ge=1, le=9)
+        money = Decimal(8, 2)
+        open_range = Decimal(gt=0)
+
     class B(ComplexModel):
         __namespace__ = ns[2]
         a = A
         when = DateTime
+        e = E
 
     class C(ComplexModel):
         __namespace__ = ns[3]
@@ -135,7 +156,8 @@ def make_app(kind, services_only=False):
                 'other_xsd_prefix': [S1, S2]}[kind]
     if services_only:
         return services, ns[0]
-    app = Application(services, ns[0], name='GenApp', in_protocol=Soap11(), out_protocol=Soap11())
+    SP = Soap11 if soap == 'soap11' else Soap12
+    app = Application(services, ns[0], name='GenApp', in_protocol=SP(), out_protocol=SP())
     if kind == 'other_xsd_prefix':
         # an application may bind the XML Schema namespace to another prefix than the library's default
         itf = app.interface
@@ -264,8 +286,8 @@ def _first_diff(a, b):
         return repr(e)
 
 
-def _mk_closure(kind):
-    @obligation('C07.closure.%s' % kind, targets=['spyne.interface.wsdl.wsdl11:Wsdl11.build_interface_document',
+def _mk_closure(kind, soap='soap11'):
+    @obligation('C07.closure.%s' % kind + ('' if soap == 'soap11' else '.' + soap), targets=['spyne.interface.wsdl.wsdl11:Wsdl11.build_interface_document',
                                                   'spyne.interface.xml_schema._base:XmlSchema.build_schema_nodes'],
                 bounded="generated application '%s' (services with custom operation/message names, two in/out headers, "
                         "declared faults, port types, five namespaces, inheritance across namespaces, all body styles)" % kind,
@@ -273,13 +295,21 @@ def _mk_closure(kind):
                      "part) resolves in the document or to an XSD builtin; cross-namespace references are imported; every "
                      "exposed method appears as exactly one portType operation with matching binding operation and messages")
     def ob(c):
-        app = make_app(kind)
+        app = make_app(kind, soap=soap)
         w = Wsdl11(app.interface)
         out = c.run(w.build_interface_document, 'http://example.com/')
         c.check('build_returns', out.returned, detail=repr(out))
         if not out.returned:
             return
         doc = w.get_interface_document()
+        # the SOAP binding extension elements belong to the namespace of the SOAP version the application speaks
+        WSDL_SOAP = {'soap11': 'http://schemas.xmlsoap.org/wsdl/soap/', 'soap12': 'http://schemas.xmlsoap.org/wsdl/soap12/'}
+        try:
+            bind_ns = sorted(set(e.tag.split('}')[0][1:] for e in etree.fromstring(doc).iter()
+                                 if isinstance(e.tag, str) and e.tag.endswith('}binding') and 'wsdl/soap' in e.tag))
+            c.check('soap_binding_namespace_is_the_protocol_version', bind_ns == [WSDL_SOAP[soap]], detail=(soap, bind_ns))
+        except etree.XMLSyntaxError:
+            pass
         try:
             problems, port_ops, messages = reference_check(doc)
         except etree.XMLSyntaxError as e:
@@ -311,6 +341,7 @@ def _mk_closure(kind):
         o3 = c.run(xs.build_validation_schema)
         w3 = Wsdl11(app.interface)
         o4 = c.run(w3.build_interface_document, 'http://example.com/')
+        c.check('embedded_schemas_compile', o3.returned, detail=repr(o3)[:600])
         c.check('builder_after_validation_schema_is_identical', o3.returned and o4.returned and
                 w3.get_interface_document() == doc, detail=_first_diff(doc, w3.get_interface_document()) if o4.returned
                 else (repr(o3), repr(o4)))
@@ -319,6 +350,7 @@ def _mk_closure(kind):
 
 for _k in ('small', 'multi', 'ports', 'multi_reversed', 'other_xsd_prefix'):
     _mk_closure(_k)
+_mk_closure('ports', 'soap12')
 
 
 _BUILD_SNIPPET = r'''
@@ -346,6 +378,13 @@ FRESH_RUNS = ((0, 0), (1, 0), (2, 14), (3, 35), (0, 63), (1, 91), (2, 70), (3, 1
 def build_in_fresh_processes(kind, runs=FRESH_RUNS):
     """The document built by the real code in fresh interpreter processes, one per (hash seed, memory layout)."""
     root = os.path.dirname(os.path.dirname(os.path.abspath(__file__)))
+    outs = []
+    for i in range(0, len(runs), 8):
+        outs.extend(_build_batch(kind, runs[i:i + 8], root))
+    return outs
+
+
+def _build_batch(kind, runs, root):
     procs = []
     for seed, junk in runs:
         env = dict(os.environ, PYTHONHASHSEED=str(seed), PYTHONDONTWRITEBYTECODE='1')
@@ -376,12 +415,13 @@ def _mk_determinism(kind):
                              "lxml serialisation is a function of the tree"])
     def ob(c):
         if c.concrete:
-            docs = build_in_fresh_processes(kind)
+            runs = FRESH_RUNS if not c.thorough else FRESH_RUNS + tuple((s_, 7 * s_ + 3) for s_ in range(4, 36))
+            docs = build_in_fresh_processes(kind, runs)
             same = len(set(docs)) == 1 and len(docs[0]) > 0
             c.check('build_returns', len(docs[0]) > 0)
             c.check('identical_under_every_set_order', same,
                     detail="documents built in fresh processes under (hash seed, junk objects allocated first) = %r: %d distinct "
-                           "byte strings (lengths %r)" % (FRESH_RUNS, len(set(docs)), [len(d) for d in docs]))
+                           "byte strings (lengths %r)" % (runs, len(set(docs)), [len(d) for d in docs]))
             return
         bad_sort, set_loops = [], set()
 
@@ -480,8 +520,8 @@ def _matches(got, want):
     return got == want
 
 
-def _mk_client(kind):
-    @obligation('C07.foreign_client.%s' % kind, targets=['spyne.interface.wsdl.wsdl11:Wsdl11.build_interface_document',
+def _mk_client(kind, soap='soap11'):
+    @obligation('C07.foreign_client.%s' % kind + ('' if soap == 'soap11' else '.' + soap), targets=['spyne.interface.wsdl.wsdl11:Wsdl11.build_interface_document',
                                                          'spyne.server.wsgi:WsgiApplication.__call__',
                                                          'spyne.protocol.soap.soap11:Soap11.create_in_document',
                                                          'spyne.protocol.soap.soap11:Soap11.serialize'],
@@ -496,11 +536,13 @@ def _mk_client(kind):
         from zeep.transports import Transport
         from spyne.server.wsgi import WsgiApplication
         services, tns = make_app(kind, services_only=True)
-        app = Application(services, tns, name='GenApp', in_protocol=Soap11(validator='lxml'), out_protocol=Soap11())
+        SP = Soap11 if soap == 'soap11' else Soap12
+        app = Application(services, tns, name='GenApp', in_protocol=SP(validator='lxml'), out_protocol=SP())
         wsgi = WsgiApplication(app)
         url = 'http://localhost:7789/app'
 
-        def call_wsgi(method, body=b'', ctype='text/xml; charset=utf-8', qs='', soapaction=None):
+        def call_wsgi(method, body=b'', ctype='text/xml; charset=utf-8' if soap == 'soap11' else 'application/soap+xml; charset=utf-8',
+                      qs='', soapaction=None):
             env = {'REQUEST_METHOD': method, 'PATH_INFO': '/app', 'QUERY_STRING': qs, 'SERVER_NAME': 'localhost',
                    'SERVER_PORT': '7789', 'HTTP_HOST': 'localhost:7789', 'wsgi.url_scheme': 'http',
                    'wsgi.input': io.BytesIO(body), 'CONTENT_LENGTH': str(len(body)), 'CONTENT_TYPE': ctype}
@@ -598,8 +640,14 @@ def _mk_client(kind):
                 port.binding.process_reply(client, port.binding.get('six'), Resp(status, headers, resp))
                 c.check('declared_fault_decoded', False, detail=(status, resp[:400]))
             except zeep.exceptions.Fault as f:
-                c.check('declared_fault_decoded', f.code.endswith('Client.My') and f.message == 'declared fault',
-                        detail=(f.code, f.message))
+                if soap == 'soap12':
+                    # SOAP 1.2 spells the Client family "Sender" and carries the rest of the code as sub-codes
+                    subs = [str(getattr(x, 'localname', x)) for x in (getattr(f, 'subcodes', None) or [])]
+                    c.check('declared_fault_decoded', f.code.endswith('Sender') and f.message == 'declared fault' and
+                            (not subs or subs == ['My']), detail=(f.code, subs, f.message))
+                else:
+                    c.check('declared_fault_decoded', f.code.endswith('Client.My') and f.message == 'declared fault',
+                            detail=(f.code, f.message))
             except Exception as e:
                 c.check('declared_fault_decoded', False, detail=repr(e)[:400])
     return ob
@@ -607,6 +655,7 @@ def _mk_client(kind):
 
 for _k in ('small', 'ports', 'other_xsd_prefix'):
     _mk_client(_k)
+_mk_client('ports', 'soap12')
 
 
 # ---------------------------------------------------------------------------------------------------------
